@@ -34,7 +34,7 @@ func readTlvStream(
 		for {
 			rdr := enc.NewBufferReader(recvBuf[tlvOff:recvOff])
 
-			typ, err := enc.ReadTLNum(rdr)
+			_, err := enc.ReadTLNum(rdr)
 			if err != nil {
 				// Probably incomplete packet
 				break
@@ -46,7 +46,12 @@ func readTlvStream(
 				break
 			}
 
-			tlvSize := typ.EncodingLength() + len.EncodingLength() + int(len)
+			// Header size as actually received (the length may not be in shortest form)
+			hdrSize := rdr.Pos()
+			if uint64(len) > uint64(defn.MaxNDNPacketSize) {
+				return errors.New("received TLV block larger than the maximum packet size")
+			}
+			tlvSize := hdrSize + int(len)
 
 			if recvOff-tlvOff >= tlvSize {
 				// Packet was successfully received, send up to link service
